@@ -546,6 +546,9 @@ class Batch:
 NUM_TOKENS = ["1", "12", ".", "5", "em", "px", "ch", "in", "pt", "%", " ", "x", ""]
 CSS_PROPS = ["width", "height", "min-width", "max-height"]
 CSS_UNITS = ["em", "px", "ch", "pt", "rem"]
+# characters Python's \s matches that are NOT CSS white space (CSS: space, tab, LF, CR, FF is
+# white space in CSS but not in the checker's class [ \t\r\n]); the last two are not XML characters
+CSS_NOT_WS = ["\xa0", "\u2003", "\u3000", "\u202f", "\x0c", "\x0b"]
 # junk and broken declarations (missing unit, unknown property, unknown unit, stray tokens)
 CSS_JUNK = ["junk ", "x ", "color: red; ", "width: 20; ", "line-height: 2em; ", "height: 2 em; ",
             "width 20ch; ", "width: 20xy; ", "12 ", "! "]
@@ -603,7 +606,7 @@ def e2e_file(rng, n):
     for i in range(n):
         eid = ID_STYLES[(i + rng.randrange(len(ID_STYLES))) % len(ID_STYLES)] % i
         kind = rng.choice(["grammar", "grammar", "equal", "edit", "edit", "equal-broken", "css-same",
-                           "css-units", "css-junk"])
+                           "css-units", "css-junk", "css-ws"])
         e = {"id": eid, "kind": kind, "q": q, "unknown": None, "broken": False, "edit": None}
         ref_nodes = gen_value(rng, pool, q, maxn=3)
         if kind == "grammar":
@@ -638,6 +641,14 @@ def e2e_file(rng, n):
                 other = [(spec[0][0], "3", "mm")] + [s_ for s_ in spec[1:] if s_[0] != spec[0][0]]
                 e["l10n"] = render_specs(other, rng, False)
                 e["css"] = "warning" if spec_map(other) != spec_map(spec) else None
+            elif kind == "css-ws":
+                # valid except for one non-CSS white-space character (XML-legal ones only here)
+                wsc = rng.choice(CSS_NOT_WS[:4])
+                j = spec_text.index(":")
+                e["l10n"] = rng.choice([spec_text[:j] + wsc + spec_text[j:], spec_text[:j + 1] + wsc + spec_text[j + 1:],
+                                        wsc + spec_text, spec_text + wsc,
+                                        spec_text.replace(";", ";" + wsc, 1)])
+                e["css"] = "error"
             else:
                 piece = rng.choice(CSS_JUNK)
                 e["l10n"] = rng.choice([piece + spec_text, spec_text + " " + piece])
@@ -988,6 +999,35 @@ def run(chk, runner_ok):
     chk.notes.append(f"DTD-CHECK-numcss: {njunk} localized specs with one of {len(CSS_JUNK)} junk pieces / broken "
                      f"declarations before, between or after the declarations, for each of the {len(speclists)} "
                      "reference spec lists; expected: the css error")
+    # a spec that is valid EXCEPT for one character that \s matches but [ \t\r\n] does not: next to the
+    # colon, before the first declaration, between two, after the last — unparseable by construction
+    nws = 0
+    for rspec in speclists:
+        rv = render_specs(rspec, rng, rng.random() < 0.5)
+        lspec = list(rspec)
+        for wsc in CSS_NOT_WS:
+            for where in ("colon-before", "colon-after", "before", "between", "after"):
+                if where == "between" and len(lspec) < 2:
+                    continue
+                di = rng.randrange(len(lspec))
+                decls = []
+                for j, (p_, n_, u_) in enumerate(lspec):
+                    pre = wsc if (where == "colon-before" and j == di) else rng.choice(["", " "])
+                    post = wsc if (where == "colon-after" and j == di) else rng.choice(["", " "])
+                    decls.append(p_ + pre + ":" + post + n_ + u_)
+                gaps = [wsc if where == "before" else ""] + [rng.choice([";", "; "]) for _ in decls[1:]] + \
+                    [rng.choice(["", ";"])]
+                if where == "between":
+                    gi = rng.randint(1, len(decls) - 1)
+                    gaps[gi] = rng.choice([";" + wsc, wsc + ";", "; " + wsc + " "])
+                if where == "after":
+                    gaps[-1] = rng.choice([";" + wsc, wsc, "; " + wsc])
+                lv = gaps[0] + "".join(d + g for d, g in zip(decls, gaps[1:]))
+                ccases.append((rv, lv, rspec, lspec, "ws-" + where))
+                nws += 1
+    chk.notes.append(f"DTD-CHECK-numcss: {nws} localized specs valid except for one of {len(CSS_NOT_WS)} characters "
+                     "that \\s matches but the checker's white-space class does not (NBSP, U+2003, U+3000, U+202F, "
+                     "FF, VT) next to the colon, before, between or after the declarations; expected: the css error")
     for (rv, lv, rspec, lspec, expect_error), rent, lent, checker in pairs_in_files(ccases):
         info = {"ref": rv, "l10n": lv}
         res, raw = b.add(info, checker, rent, lent)
@@ -1360,7 +1400,7 @@ def replay_e2e(f):
         kind = c.get("kind")
         css_err = any(x[0] == "reference is a CSS spec" for x in got["error"])
         css_warn = any("units for" in x[0] or "only in" in x[0] for x in got["warning"])
-        return int({"css-junk": not css_err, "css-units": False, "css-same": css_err or css_warn}.get(kind, True))
+        return int({"css-junk": not css_err, "css-ws": not css_err, "css-units": False, "css-same": css_err or css_warn}.get(kind, True))
     return 1
 
 
@@ -1411,7 +1451,7 @@ def replay(chk, path):
             rc |= pairs != [list(x) for x in f["detail"]["expected"]]
         elif sig == "false-warning:reference-unparseable" and not isinstance(got, str):
             rc |= any(m == "can't parse en-US value" for _, _, m, _ in got)
-        elif sig.startswith("css-junk") or sig == "css-unparseable-not-error":
+        elif sig.startswith("css-") and sig.endswith("-not-error"):
             rc |= isinstance(got, str) or \
                 [(i[0], i[2]) for i in got if i[3] == "css"] != [("error", "reference is a CSS spec")]
         else:
